@@ -192,17 +192,24 @@ rounds:
 			if gotime.Now().After(deadline) {
 				refuted := ""
 				if lw.starved() {
-					if probe := r.refute(ctx, key, d, missing); probe != "" && missing.told.Load() < pEntry {
+					probe := r.refute(ctx, key, d, missing)
+					if missing.told.Load() >= pEntry || missing.closed.Load() {
+						deadline = gotime.Now().Add(waitCap) // told in the meantime; the others get a cap of their own
+						continue
+					}
+					if probe != "" {
 						refuted = fmt.Sprintf(" The process was starved of CPU during the case (a 1 ms sleeper overslept %v), but that does not explain it: the publisher logged no failed send to "+
 							"this watcher, and the watcher has received the later change %q, so the batches before it were flushed.", gotime.Duration(lw.max.Load()), probe)
 					}
 				}
 				if lw.starved() && refuted == "" {
 					r.starvedMiss.Add(1)
+					logged := loggedTimeouts(churnActor(r.seq, d, missing.id))
 					r.mu.Lock()
 					r.notes = append(r.notes, fmt.Sprintf("churn (inconclusive, process starved: a 1 ms sleeper overslept %v): doc %d round %d: watcher actor %d, subscribed and reading "+
-						"(its previous event was received at stamp %d, so its one-slot buffer was empty), was not told about the DocChanged published at stamp %d within %v and its channel stayed open",
-						gotime.Duration(lw.max.Load()), d, round, missing.id, missing.told.Load(), pEntry, waitCap))
+						"(its previous event was received at stamp %d, so its one-slot buffer was empty), was not told about the DocChanged published at stamp %d within %v and its channel stayed open; "+
+						"failed sends to this watcher in the publisher's log: %d",
+						gotime.Duration(lw.max.Load()), d, round, missing.id, missing.told.Load(), pEntry, waitCap, logged))
 					r.mu.Unlock()
 				} else {
 					r.failf("NEVER-TOLD", "doc %d round %d: watcher (actor %d) subscribed before anything was published and is still subscribed, but %v after the DocChanged "+
